@@ -846,3 +846,30 @@ mutant("C13-M27", "C13", "R12a", "programs ordered by outcome instead of effect 
 mutant("C17-M21", "C17", "R17a", "per-sample worker reseeds from the process id (seeded C17e)", RS, "_sample_and_map_worker", "    np.random.seed()", "    np.random.seed(os.getpid())", edits=[dict(file=RS, old="import numpy as np\n", new="import os\nimport numpy as np\n"), dict(file=RS, func="_sample_and_map_worker", old="    np.random.seed()", new="    np.random.seed(os.getpid())")])
 mutant("C17-M22", "C17", "R17a", "pool initialiser reseeds with a constant", U, "_worker_init", "    np.random.seed()", "    np.random.seed(0)")
 twin("C17-T9", "C17", "reseed written with an explicit None", RS, "_sample_and_map_worker", "    np.random.seed()", "    np.random.seed(None)")
+
+
+# ---- field rename twins: an attribute renamed consistently in the whole file must not raise anything
+def field_twin(id, prop, file, old, new):
+    import glob
+    import os
+    import re
+
+    files = [file] + sorted("atomica/" + os.path.basename(f) for f in glob.glob("/repo/atomica/*.py") if "atomica/" + os.path.basename(f) != file and re.search(re.escape("." + old) + r"\b", open(f).read()))
+    twin(id, prop, "field `%s` renamed to `%s` throughout the package" % (old, new), None, None, None, None, edits=[dict(file=f, old="." + old, new="." + new, all=True, word=True) for f in files])
+
+
+field_twin("C01-T8", "C01", M, "_cached_outflow", "_outflow_cache")
+field_twin("C05-T10", "C05", M, "flush_link", "expiry_link")
+field_twin("C04-T11", "C04", M, "duration_group", "dur_group")
+field_twin("C12-T11", "C12", PR, "_cached_progs", "_ordered_progs")
+field_twin("C14-T12", "C14", OP, "adjustables", "knobs")
+field_twin("C06-T14", "C06", M, "_is_dynamic", "_dynamic_flag")
+field_twin("C17-T10", "C17", U, "_sampled", "_was_sampled")
+field_twin("C13-T5", "C13", M, "_program_cache", "_prog_cache")
+
+# ---- round 8
+mutant("C06-M46", "C06", "R06n", "suspended function re-evaluated at the first overwrite year (seeded C06f)", M, "Parameter.update", "if (self.t[ti] >= self.skip_function[0]) and (self.t[ti] <= self.skip_function[1]):", "if (self.t[ti] > self.skip_function[0]) and (self.t[ti] <= self.skip_function[1]):")
+mutant("C06-M47", "C06", "R06n", "vector evaluation also keeps the last suspended year", M, "Parameter.update", "(self.t[ti] > self.skip_function[1])", "(self.t[ti] >= self.skip_function[1])")
+twin("C06-T15", "C06", "skip window unpacked into locals, chained comparison", M, "Parameter.update", "                if (self.t[ti] >= self.skip_function[0]) and (self.t[ti] <= self.skip_function[1]):\n                    return", "                skip_start, skip_stop = self.skip_function\n                if skip_start <= self.t[ti] <= skip_stop:\n                    return")
+mutant("C06-M48", "C06", "R06m", "precompute decision nested under the dependency test (seeded C04f)", M, "Parameter.set_dynamic", "        if not self._is_dynamic:\n            self._precompute = True", "            if not self._is_dynamic:\n                self._precompute = True")
+twin("C06-T16", "C06", "precompute decision written as if / else", M, "Parameter.set_dynamic", "        if not self._is_dynamic:\n            self._precompute = True", "        if self._is_dynamic:\n            pass\n        else:\n            self._precompute = True")
